@@ -269,13 +269,13 @@ func suiteSched(o *suiteOut, r *rng, tier string, n int) {
 			schedCase(o, in, "all+eof", &chunkedReader{data: cp(), next: func(rem int) int { return rem }, eofWith: true}, base, idx)
 			schedCase(o, in, "not-seekable", notSeekable{bytes.NewReader(in.data)}, base, idx)
 			schedCase(o, in, "seek-fails", seekFails{bytes.NewReader(in.data)}, base, idx)
-		{
-			// a seekable source that does not start at offset 0 (a font inside a container file)
-			junk := []byte("JUNK-BEFORE-THE-DATA\x00\x80\x01%!")
-			sr := bytes.NewReader(append(append([]byte{}, junk...), in.data...))
-			sr.Seek(int64(len(junk)), io.SeekStart)
-			schedCase(o, in, "seekable-at-offset", sr, base, idx)
-		}
+			{
+				// a seekable source that does not start at offset 0 (a font inside a container file)
+				junk := []byte("JUNK-BEFORE-THE-DATA\x00\x80\x01%!")
+				sr := bytes.NewReader(append(append([]byte{}, junk...), in.data...))
+				sr.Seek(int64(len(junk)), io.SeekStart)
+				schedCase(o, in, "seekable-at-offset", sr, base, idx)
+			}
 			for k := 0; k < 3; k++ {
 				rr := newRng(r.next())
 				schedCase(o, in, fmt.Sprintf("random-%d", k), &chunkedReader{data: cp(), next: func(int) int { return pick(rr, []int{1, 2, 3, 7, 64, 511, 512, 513, 4000}) }, eofWith: rr.chance(1, 2)}, base, idx)
@@ -764,7 +764,9 @@ func detOutputs(seed uint64, count int) []string {
 					if off < 0 {
 						continue
 					}
-					safeErr(func() error { return f.Write(&faultWriter{failCall: -1, shortAt: off}, &type1.WriterOptions{Format: ff}) })
+					safeErr(func() error {
+						return f.Write(&faultWriter{failCall: -1, shortAt: off}, &type1.WriterOptions{Format: ff})
+					})
 					again, _, _ := writeFont(f, ff)
 					if !bytes.Equal(good, again) {
 						out = append(out, fmt.Sprintf("font%d-%s-after-failed-write-at-%d:DIFFERS(%d vs %d bytes)", i, formatName(ff), off, len(good), len(again)))
